@@ -122,6 +122,11 @@ struct Ctx {
     methods: Vec<String>,
     next_id: i64,
     no_template: HashSet<String>,
+    /// every response ever received, by request id (ids are unique across the cases of a run): a response
+    /// that arrives late is still credited to the request it answers
+    all_obs: BTreeMap<String, Vec<String>>,
+    /// every request id ever sent by a case
+    issued: HashSet<String>,
 }
 
 fn gen_case(cx: &mut Ctx, rng: &mut Rng, stream: usize) -> Vec<Value> {
@@ -254,32 +259,43 @@ fn run_case(cx: &mut Ctx, msgs: &[Value], rng: &mut Rng, wait_missing: Duration)
     cx.srv.send_req(probe.clone(), "textDocument/documentSymbol", json!({"textDocument": {"uri": uri}}));
     let probe_ok = cx.srv.wait_response(&probe, Duration::from_secs(20)).is_some();
     // wait until every expected id has as many responses as requests, or the deadline passes
-    let mut obs: BTreeMap<String, Vec<String>> = BTreeMap::new();
     let mut want: BTreeMap<String, usize> = BTreeMap::new();
     for id in &expected {
         *want.entry(id_json(id).to_string()).or_insert(0) += 1;
-        obs.entry(id_json(id).to_string()).or_default();
+        cx.issued.insert(id_json(id).to_string());
     }
     let deadline = Instant::now() + wait_missing + Duration::from_millis(max_ms);
     loop {
-        for r in cx.srv.take_inbox() {
-            obs.entry(id_json(&r.id).to_string()).or_default().push(class_of(&r));
-        }
-        let complete = want.iter().all(|(k, n)| obs.get(k).map(|v| v.len()).unwrap_or(0) >= *n);
-        if complete || Instant::now() >= deadline {
+        absorb(cx);
+        if complete(cx, &want) || Instant::now() >= deadline {
             break;
         }
         cx.srv.drain(Duration::from_millis(20), Duration::from_millis(40));
     }
     // a short grace period to catch duplicate (extra) responses
     cx.srv.drain(Duration::from_millis(15), Duration::from_millis(60));
+    absorb(cx);
+    (view(cx, &want), probe_ok)
+}
+
+/// move the responses received so far into the global per-id record
+fn absorb(cx: &mut Ctx) {
     for r in cx.srv.take_inbox() {
-        obs.entry(id_json(&r.id).to_string()).or_default().push(class_of(&r));
+        cx.all_obs.entry(id_json(&r.id).to_string()).or_default().push(class_of(&r));
     }
-    for v in obs.values_mut() {
+}
+fn complete(cx: &Ctx, want: &BTreeMap<String, usize>) -> bool {
+    want.iter().all(|(k, n)| cx.all_obs.get(k).map(|v| v.len()).unwrap_or(0) >= *n)
+}
+/// the responses recorded so far for the ids of one case
+fn view(cx: &Ctx, want: &BTreeMap<String, usize>) -> BTreeMap<String, Vec<String>> {
+    let mut obs = BTreeMap::new();
+    for k in want.keys() {
+        let mut v = cx.all_obs.get(k).cloned().unwrap_or_default();
         v.sort();
+        obs.insert(k.clone(), v);
     }
-    (obs, probe_ok)
+    obs
 }
 
 fn start(args: &Args) -> Ctx {
@@ -299,7 +315,7 @@ fn start(args: &Args) -> Ctx {
         Some(f) => std::fs::read_to_string(f).unwrap().lines().map(|l| l.trim().to_string()).filter(|l| !l.is_empty()).collect(),
         None => BUILTIN_METHODS.iter().map(|s| s.to_string()).collect(),
     };
-    Ctx { srv, uri, methods, next_id: 100, no_template: HashSet::new() }
+    Ctx { srv, uri, methods, next_id: 100, no_template: HashSet::new(), all_obs: BTreeMap::new(), issued: HashSet::new() }
 }
 
 /// the request occurrences of a case with what the property demands: one response each
@@ -338,11 +354,6 @@ fn check_case(msgs: &[Value], obs: &BTreeMap<String, Vec<String>>, probe_ok: boo
         let got = obs.get(id).map(|x| x.len()).unwrap_or(0);
         if got != *n {
             v.push(signature_of(msgs, id, got, *n));
-        }
-    }
-    for (id, got) in obs {
-        if !want.contains_key(id) && !got.is_empty() {
-            v.push((format!("extra-response:no-such-request"), format!("response(s) {:?} for id {} that was never requested", got, id)));
         }
     }
     if !probe_ok {
@@ -437,7 +448,7 @@ fn main() {
             let search = args.cmd == "search";
             let mut cx = start(&args);
             let mut rng = Rng::new(seed ^ if search { 0x5EA5C4 } else { 0xC022 });
-            let wait = Duration::from_millis(args.u64("wait-ms", 1500));
+            let wait = Duration::from_millis(args.u64("wait-ms", 3000));
             let mut seen = HashSet::new();
             let mut distinct_nontrivial = 0usize;
             let mut kinds: BTreeMap<String, usize> = BTreeMap::new();
@@ -448,6 +459,8 @@ fn main() {
             let mut cases = 0usize;
             let max_viol = args.usize("max-viol", 60);
             let mut stopped_early = false;
+            let mut provisional = 0usize;
+            let mut records: Vec<(Vec<Value>, bool)> = Vec::new();
             let mut sig_count: BTreeMap<String, usize> = BTreeMap::new();
             let corpus = corpus_cases(&args);
             // systematic stream: every registered method x {valid, bad, absent} as single-request cases
@@ -493,17 +506,44 @@ fn main() {
                         }
                     }
                 }
+                if seen.insert(case_shape(&msgs)) && nontrivial(&msgs) {
+                    distinct_nontrivial += 1;
+                }
+                // provisional verdict (responses may still arrive late): only used to stop early on a broken tree
+                if search && !check_case(&msgs, &obs, probe_ok).is_empty() {
+                    provisional += 1;
+                }
+                records.push((msgs.clone(), probe_ok));
+                if provisional >= max_viol {
+                    stopped_early = true;
+                    break;
+                }
+                if cx.srv.server_ended().is_some() {
+                    println!("{}", json!({"signature": "server-stopped-serving", "what": "the server loop ended during the run", "case": {"msgs": msgs}}));
+                    break;
+                }
+            }
+            // final settle: a late response is credited to its request; only what never arrives is missing
+            let all_want: Vec<BTreeMap<String, usize>> = records.iter().map(|(m, _)| request_ids(m)).collect();
+            let t_end = Instant::now();
+            while t_end.elapsed() < Duration::from_secs(10) {
+                absorb(&mut cx);
+                if all_want.iter().all(|w| complete(&cx, w)) {
+                    break;
+                }
+                cx.srv.drain(Duration::from_millis(50), Duration::from_millis(200));
+            }
+            cx.srv.drain(Duration::from_millis(100), Duration::from_millis(300));
+            absorb(&mut cx);
+            for (msgs, probe_ok) in records.clone() {
+                let obs = view(&cx, &request_ids(&msgs));
                 for v in obs.values() {
                     for c in v {
                         *classes.entry(c.clone()).or_insert(0) += 1;
                     }
                 }
-                if seen.insert(case_shape(&msgs)) && nontrivial(&msgs) {
-                    distinct_nontrivial += 1;
-                }
                 if search {
-                    let viol = check_case(&msgs, &obs, probe_ok);
-                    for (sig, what) in viol {
+                    for (sig, what) in check_case(&msgs, &obs, probe_ok) {
                         violations += 1;
                         let seen_sig = sig_count.entry(sig.clone()).or_insert(0usize);
                         *seen_sig += 1;
@@ -513,7 +553,7 @@ fn main() {
                             for m in &msgs {
                                 if matches!(m["k"].as_str(), Some("req") | Some("unknown") | Some("task")) {
                                     let one = rebase_ids(&mut cx, &[m.clone()]);
-                                    let (o1, p1) = run_case(&mut cx, &one, &mut rng, wait);
+                                    let (o1, p1) = run_case(&mut cx, &one, &mut rng, Duration::from_secs(8));
                                     let v1 = check_case(&one, &o1, p1);
                                     if v1.iter().any(|(s, _)| *s == sig) {
                                         shrunk = one;
@@ -527,13 +567,13 @@ fn main() {
                 } else {
                     println!("{}", json!({"msgs": msgs, "obs": obs, "probe": probe_ok}));
                 }
-                if violations >= max_viol {
-                    stopped_early = true;
-                    break;
-                }
-                if cx.srv.server_ended().is_some() {
-                    println!("{}", json!({"signature": "server-stopped-serving", "what": "the server loop ended during the run", "case": {"msgs": msgs}}));
-                    break;
+            }
+            // responses for ids that no request of the run carried
+            let strays: Vec<String> = cx.all_obs.keys().filter(|k| !cx.issued.contains(*k)).cloned().collect();
+            if search {
+                for k in strays {
+                    violations += 1;
+                    println!("{}", json!({"signature": "extra-response:no-such-request", "what": format!("response(s) {:?} for id {} that was never requested", cx.all_obs[&k], k), "case": {"msgs": []}}));
                 }
             }
             println!("{}", json!({"summary": {"cases": cases, "distinct_nontrivial": distinct_nontrivial, "message_kinds": kinds,
